@@ -153,7 +153,7 @@ def c13(ctx):
     ctx.assumptions += ["contents of members larger than 4 KiB are compared by SHA-256 in the harness (a fact TLA+ cannot compute)"]
 
 
-@prop("C15", "C13Trace",
+@prop("C15", "C15Trace",
       "TLC corrupts spec-rendered archives: every header column of every member set to each hostile text (negative, "
       "-60, -61, -62, huge, blank, junk, signed, 60, -0), each magic byte, each global-magic byte, truncation at every "
       "offset; the real iterator is run twice under a step budget and a panic guard and every step is judged for the "
@@ -166,3 +166,38 @@ def c15(ctx):
     r = hgen(ctx, "C15", ctx.path("rand.ndjson"))
     judge(ctx, "C15", vf.cat(ctx.path("vec.ndjson"), g1, r), what="iteration safety on damaged archives")
     ctx.exhaustive = True
+    ctx.assumptions += ["behaviour of the third-party xz/lzma/bzip2/zstd decoders on hostile streams is outside the claim "
+                        "(the property's own quantifier): damaged packages use stored or gzip members"]
+
+
+# =========================================================================== .deb (C14, C16)
+@prop("C14", "C14Trace",
+      "TLC enumerates package shapes: all 6x6 control/data compression pairs, control-tar layouts (./control first, "
+      "middle, last, bare 'control', './x/../control'), 0-3 data files, extra members, debian-binary texts (2.0, 2.1, "
+      "3.0, 1.0, no newline, empty, trailing junk), missing members, member orders, ambiguous candidates; the harness "
+      "builds each as a real .deb (tar, gzip/xz/bzip2/lzma/zstd, ar) and every load is judged against the shape.")
+def c14(ctx):
+    t = ctx.tier
+    mc(ctx, "DebLoadMC.tla", "DebLoadMC_%s.cfg" % t, what="loader machine: outcome is a function of the shape")
+    g1 = gen(ctx, "DebGen.tla", "DebGen_c14_%s.cfg" % t, ctx.path("shapes.ndjson"), what="package shapes")
+    r = hgen(ctx, "C14", ctx.path("rand.ndjson"))
+    judge(ctx, "C14", vf.cat(ctx.path("vec.ndjson"), g1, r), what="deb.Load vs package shape", chunk=500)
+    ctx.exhaustive = True
+    ctx.assumptions += ["tar framing, compression and ar framing of the packages are produced by Go's standard library, "
+                        "klauspost/zstd and the installed xz/bzip2 tools (ground truth, not judged)"]
+
+
+@prop("C16", "C14Trace",
+      "TLC enumerates signed package shapes x asked role x keyring composition, signatures over the wrong member "
+      "order/subset, decoy control/data members before/after covered or not by the signature, and a byte flipped in "
+      "each of the four members at seven relative positions; the harness signs with real OpenPGP keys; plus every "
+      "byte position (stride-sampled in quick) of the signed members and the signature flipped. Each case is loaded "
+      "and checked repeatedly.")
+def c16(ctx):
+    t = ctx.tier
+    mc(ctx, "DebLoadMC.tla", "DebLoadMC_%s.cfg" % t, what="debsig machine: verified members = loaded members")
+    g1 = gen(ctx, "DebGen.tla", "DebGen_c16_%s.cfg" % t, ctx.path("shapes.ndjson"), what="signed package shapes")
+    r = hgen(ctx, "C16", ctx.path("rand.ndjson"))
+    judge(ctx, "C16", vf.cat(ctx.path("vec.ndjson"), g1, r), what="CheckDebsig vs ideal signature", chunk=500)
+    ctx.assumptions += ["OpenPGP signing/verification by golang.org/x/crypto/openpgp is ground truth; signatures are "
+                        "modelled as ideal (key, signed member list) in the specification"]
